@@ -44,7 +44,11 @@ def _gen_module(r, shared_names):
     gnames = list(dict.fromkeys(gnames))
     fnames = list(dict.fromkeys(r.choice(shared_names["f"]) for _ in range(r.randint(1, 3))))
     L = []
+    late = []  # globals defined between / after the functions (a library is free to interleave them)
     for g in gnames:
+        if r.random() < 0.35:
+            late.append(g)
+            continue
         k = r.random()
         if k < 0.6:
             L.append(f"{{P}}{g} = d{r.randrange(6)}.{r.choice(INP)} + {r.randint(0, 9)}")
@@ -58,15 +62,19 @@ def _gen_module(r, shared_names):
         npar = r.randint(0, 3)
         ps = [f"p{j}" for j in range(npar)]
         ret = r.random() < 0.6
+        if late and r.random() < 0.6:
+            g0 = late.pop(0)
+            L.append(f"{{P}}{g0} = d{r.randrange(6)}.{r.choice(INP)} + {r.randint(0, 9)}")
         L.append(f"def {{P}}{f}({', '.join(ps)}):")
-        wr = [g for g in gnames if r.random() < 0.5]
+        avail = [g for g in gnames if g not in late]
+        wr = [g for g in avail if r.random() < 0.5]
         if wr:
             L.append("    global " + ", ".join("{P}" + g for g in wr))
         for p in ps:
             L.append(f"    d{r.randrange(6)}.{r.choice(CELLW)} = {p}")
         for g in wr:
             L.append(f"    {{P}}{g} = {{P}}{g} + {r.choice(ps) if ps else r.randint(1, 5)}")
-        for g in gnames:
+        for g in avail:
             # read (almost) every module global from every function: a global that shares a register with another
             # one or with a temporary of the module's top-level code shows up here
             if r.random() < 0.85:
@@ -79,7 +87,7 @@ def _gen_module(r, shared_names):
             L.append(f"    if d{r.randrange(6)}.Error:")
             L.append("        return" + (f" {r.randint(10, 99)}" if ret else ""))
         if ret:
-            L.append("    return " + (" + ".join(ps) if ps else str(r.randint(1, 9))) + (f" + {{P}}{gnames[0]}" if gnames and r.random() < 0.5 else ""))
+            L.append("    return " + (" + ".join(ps) if ps else str(r.randint(1, 9))) + (f" + {{P}}{avail[0]}" if avail and r.random() < 0.5 else ""))
         elif not ps and not wr:
             L.append(f"    d{r.randrange(6)}.{r.choice(CELLW)} = {r.randint(100, 999)}")
         funcs.append((f, npar, ret))
